@@ -536,7 +536,15 @@ class Engine:
             return r if isinstance(op, ast.Is) else z3.Not(r)
         if isinstance(op, (ast.Eq, ast.NotEq)):
             if (isinstance(a.ty, StrT) and isinstance(b.ty, IntT)) or (isinstance(a.ty, IntT) and isinstance(b.ty, StrT)):
-                r = z3.BoolVal(False)  # python: a str never equals an int
+                # a string-typed slot compared with an int constant (e.g. the `[0]` "no tags" sentinel kept in a list of tag strings): an int stored
+                # in a string-typed container is represented by a reserved string code "\x00int:<n>", which no real string has; a symbolic slot
+                # may or may not hold it, so both outcomes are explored
+                s_, i_ = (a, b) if isinstance(a.ty, StrT) else (b, a)
+                iv = z3.simplify(i_.t)
+                if not z3.is_int_value(iv):
+                    raise Unsupported("comparison of a string with a non-constant int at line %s" % getattr(node, "lineno", "?"))
+                self.assumptions_used.add("an int constant stored in a string-typed container is represented by a reserved string code (\\x00int:<n>)")
+                r = s_.t == str_code("\x00int:%d" % iv.as_long())
             else:
                 r = self.equals(a, b, st, node)
             return r if isinstance(op, ast.Eq) else z3.Not(r)
